@@ -56,6 +56,8 @@ def run(c, prop, seconds, seeds, cwd, only_ops=None, jobs=16):
         env = dict(os.environ)
         if only_ops:
             env["VH_FUZZ_OPS"] = ",".join(str(OP_INDEX[o]) for o in sorted(only_ops) if o in OP_INDEX)
+        os.makedirs(os.path.join(d, "tmp"), exist_ok=True)
+        env["TMPDIR"] = os.path.join(d, "tmp")   # libFuzzer's fork mode keeps its working directories under $TMPDIR: inside the scratch area, removed with it
         env.update({"VH_FUZZ_FINDINGS": findings, "VH_FUZZ_QUIET": "1", "ASAN_OPTIONS": "detect_leaks=0:allocator_may_return_null=1", "RUST_BACKTRACE": "0"})
         cmd = [binary, corpus, "-fork=%d" % jobs, "-ignore_crashes=1", "-ignore_timeouts=1", "-ignore_ooms=1", "-timeout=10", "-rss_limit_mb=4096",
                "-max_total_time=%d" % seconds, "-len_control=0", "-max_len=20000", "-artifact_prefix=%s/" % art]
